@@ -840,8 +840,8 @@ INPLACE_FIXED = os.environ.get("C20_INPLACE_FIXED", "1") == "1"
 NOTFLIP_FIXED = os.environ.get("C20_NOTFLIP_FIXED", "1") == "1"
 BOOLOPDUP_FIXED = os.environ.get("C20_BOOLOPDUP_FIXED", "1") == "1"
 # GeneralCallNode.map_to_simple_call_node (proposed_fixes/C20-ccall_*.diff)
-CCSIMPLE_FIXED = os.environ.get("C20_CCSIMPLE_FIXED", "0") == "1"
-CCKEEP_FIXED = os.environ.get("C20_CCKEEP_FIXED", "0") == "1"
+CCSIMPLE_FIXED = os.environ.get("C20_CCSIMPLE_FIXED", "1") == "1"
+CCKEEP_FIXED = os.environ.get("C20_CCKEEP_FIXED", "1") == "1"
 CCRECV_FIXED = os.environ.get("C20_CCRECV_FIXED", "0") == "1"
 FLAG_CLASSES = [  # (index in the model's flag vector, finding class)
     (0, "minmax_first_argument_evaluated_last"),
@@ -1018,11 +1018,16 @@ def check_stmts(ctx, stmts, tag, front_modules=()):
     if "exc" in front:
         raise front["exc"]
     rej_errs = front["res"].get(rej_name + "#err", [])
+    rej_recs = front["res"].get(rej_name, {})
     rej_res = {}
     for i in rej:
         lo, hi = rej_range[i]
         msgs = [m for ln, m in rej_errs if lo <= ln <= hi]
-        rej_res[i] = {"ok": not msgs, "err": " / ".join(msgs)}
+        # the mapping passed fewer arguments on than the call supplies (inside the keyword arguments of a Python
+        # call the resulting error is not reported at once: the compiler crashes later in code generation)
+        cut = any(rc.get("res") == "ok" and len(rc["args"]) < len(rc["simple"])
+                  for ln, recs in rej_recs.items() if lo <= int(ln) <= hi for rc in recs)
+        rej_res[i] = {"ok": not msgs and not cut, "err": " / ".join(msgs), "cut": cut}
     t_1 = time.time()
     pending = []
     nskip = 0
@@ -1045,7 +1050,7 @@ def check_stmts(ctx, stmts, tag, front_modules=()):
             # compare; reported as a note, see proposed_fixes/C20-ccall_arguments_cut_after_leading_temp)
             ctx.case("ccall-rejected", inp, sig=src)
             rr = rej_res[i]
-            if rr["ok"] or not ("wrong number of arguments" in rr["err"] or "missing argument" in rr["err"]):
+            if rr["ok"] or not (rr["cut"] or "wrong number of arguments" in rr["err"] or "missing argument" in rr["err"]):
                 ctx.corr_break("model-rejects-vs-compiler", inp, rr, ma)
             alt = parse_model(m_ccrep[i])
             if alt is None or alt[1] == "REJECT":
